@@ -12,10 +12,11 @@
 #include <mh_sha1_murmur3_x64_128.h>
 #include <rolling_hashx.h>
 #include <aes_gcm.h>
+#include <stddef.h>
 
 static const char *prop = "C05";
 static const char *what = "all";
-static int guard_mode, pair_mode;
+static int guard_mode, pair_mode, secrets_mode;
 static int want(const char *w) { return !strcmp(what, "all") || !strcmp(what, w); }
 
 #define POOL (1 << 16)
@@ -277,6 +278,21 @@ static void roll_sweep(void)
 						vk_violation("C09", key, NULL, "%s left hash/history different from the canonical state of the last w bytes (%s)", fnm, shape);
 					}
 					vk_distinct("roll_state", vk_hash(&q, sizeof q, vk_hash(&w, 4, mi * 3 + impl)));
+					if (pair_mode) {
+						/* second execution: undefined tail of history[], output prefill and register/stack poison differ */
+						uint32_t o1 = *p_off; int m1 = *p_match; uint64_t h1 = st->hash; uint8_t hist1[48]; memcpy(hist1, st->history, w);
+						*st = st0; st->hash = canon[p]; memcpy(st->history, stream + p, w);
+						for (unsigned t = w; t < 48; t++) st->history[t] ^= 0xff;
+						*p_off = 0x11111111; *p_match = 0x2222;
+						vk_call_poison = 0xfedcba9876543210ULL;
+						if (VK_TRY()) { VCALLN(f_run, "isal_rolling_hash2_run", AP(st), AP(buf), A32(m), A32(mask), A32(trig), AP(p_off), AP(p_match)); VK_END_TRY(); }
+						vk_call_poison = 0x1111111111111111ULL;
+						vk_stat("pairs", 1);
+						if (*p_off != o1 || *p_match != m1 || st->hash != h1 || memcmp(hist1, st->history, w)) {
+							char key[160]; snprintf(key, sizeof key, "%s:pair", fnm);
+							vk_violation("C20", key, NULL, "%s result depends on hidden inputs (%s)", fnm, shape);
+						}
+					}
 				}
 			}
 			/* chained runs without state restore: state reached from the initial state vs canonical */
@@ -363,6 +379,14 @@ static int gcm_stream(int f, int ks, int dec, int nt, const size_t *pl, int np, 
 	for (int i = 0; i < np; i++) { o += snprintf(shape + o, sizeof shape - o, "%s%zu", i ? "," : "", pl[i]); tot += pl[i]; }
 	snprintf(shape + o, sizeof shape - o, " aad=%zu place=%d inplace=%d", aad, place, inplace);
 	const uint8_t *src = pool + (dec ? 20000 : 0);      /* arbitrary bytes serve as plaintext or ciphertext */
+	if (secrets_mode) {
+		vk_sec_reset(); vk_sec_add_key(g_key[ks], bits);
+		ref_aes_key k; uint8_t h[16], hr[16]; ref_aes_expand(&k, g_key[ks], bits); ref_gcm_hashkey(&k, h);
+		for (int i = 0; i < 16; i++) hr[i] = h[15 - i];
+		vk_sec_add(h, "hashkey_be", 0); vk_sec_add(hr, "hashkey_le", 0);
+		const uint8_t *tab = gkd[f][ks].shifted_hkey_1;
+		for (size_t i = 0; i + 16 <= sizeof(struct isal_gcm_key_data) - offsetof(struct isal_gcm_key_data, shifted_hkey_1); i += 16) vk_sec_add(tab + i, "hkeytab", (int)(i / 16));
+	}
 	/* one-shot of the same family on the concatenation */
 	struct isal_gcm_context_data c1;
 	size_t o_kd = vk_place(&s_key, sizeof(struct isal_gcm_key_data), VK_END, 16, 0);
@@ -390,9 +414,11 @@ static int gcm_stream(int f, int ks, int dec, int nt, const size_t *pl, int np, 
 	vk_alarm(5000);
 	if (VK_TRY()) {
 		VCALLN(f_init, n_init, AP(kd), AP(ctx), AP(p_iv), AP(p_aad), A64(aad));
+		if (secrets_mode) vk_sec_scan(n_init, shape);
 		size_t pos = 0; cur = n_upd;
 		for (int i = 0; i < np; i++) {
 			VCALLN(f_upd, n_upd, AP(kd), AP(ctx), AP(out + pos), AP(in + pos), A64(pl[i]));
+			if (secrets_mode) vk_sec_scan(n_upd, shape);
 			vk_stat("calls_update", 1);
 			pos += pl[i];
 			/* output so far must already be the one-shot prefix, bytes beyond untouched */
@@ -405,6 +431,7 @@ static int gcm_stream(int f, int ks, int dec, int nt, const size_t *pl, int np, 
 		}
 		cur = n_fin;
 		VCALLN(f_fin, n_fin, AP(kd), AP(ctx), AP(tag), A64(16));
+		if (secrets_mode) vk_sec_scan(n_fin, shape);
 		VK_END_TRY();
 	} else faulted = 1;
 	vk_alarm(0);
@@ -425,7 +452,8 @@ static int gcm_stream(int f, int ks, int dec, int nt, const size_t *pl, int np, 
 static void gcms_case(int f, int ks, int dec, int nt, const size_t *pl, int np, size_t aad, long idx)
 {
 	static uint8_t o1[8192], o2[8192], t1[16], t2[16];
-	if (guard_mode) {
+	if (secrets_mode) { if (idx % 7 == 0 || vk_thorough) gcm_stream(f, ks, dec, nt, pl, np, aad, VK_END, idx & 1, 0, 0x5a5a5a5a5a5a5a5aULL, NULL, NULL); }
+	else if (guard_mode) {
 		gcm_stream(f, ks, dec, nt, pl, np, aad, VK_END, idx & 1, 0, 0x5a5a5a5a5a5a5a5aULL, NULL, NULL);
 		gcm_stream(f, ks, dec, nt, pl, np, aad, VK_START, (idx >> 1) & 1, 0, 0x5a5a5a5a5a5a5a5aULL, NULL, NULL);
 	} else if (pair_mode) {
@@ -442,7 +470,7 @@ static void gcms_sweep(void)
 	gcm_prepare();
 	g_one = malloc(8192);
 	long item = 0, idx = 0;
-	int maxsum = vk_thorough ? 96 : ((guard_mode || pair_mode) ? 40 : 64);
+	int maxsum = vk_thorough ? 96 : ((guard_mode || pair_mode || secrets_mode) ? 40 : 64);
 	for (int f = 0; f < 4; f++) for (int ks = 0; ks < 2; ks++) for (int dec = 0; dec < 2; dec++) {
 		if (!vk_host_can(gcm_need[f])) { vk_stat("skipped_family_not_executable_on_host", 1); continue; }
 		if (vk_only && !strstr(gcm_fams[f], vk_only)) continue;
@@ -493,7 +521,9 @@ int main(int argc, char **argv)
 	if (vk_opt("what", &v)) what = v;
 	guard_mode = !strcmp(prop, "C08");
 	pair_mode = !strcmp(prop, "C20");
-	if (pair_mode) vk_call_mode = VC_POISON_REGS | VC_STACK;
+	secrets_mode = !strcmp(prop, "C14");
+	if (secrets_mode) vk_call_mode = VC_POISON_REGS | VC_STACK | VC_CAPVEC;
+	else if (pair_mode) vk_call_mode = VC_POISON_REGS | VC_STACK;
 	else if (!strcmp(prop, "C19")) vk_call_mode = VC_POISON_REGS;
 	if (ref_run_kats(0)) { fprintf(stderr, "reference KATs failed\n"); return 2; }
 	vk_slot_init(&s_in, "in", 16384, 1); vk_slot_init(&s_in2, "in2", 16384, 1);
